@@ -52,8 +52,9 @@ type Val struct {
 }
 
 type Content struct {
-	G string `json:"g,omitempty"` // garbage kind: "syntax", "unknownkey", "empty", "nosched"
-	V *Val   `json:"v,omitempty"` // schedule value
+	G  string `json:"g,omitempty"`  // garbage kind: "syntax", "unknownkey", "empty", "nosched"
+	V  *Val   `json:"v,omitempty"`  // schedule value
+	Nm string `json:"nm,omitempty"` // explicit `name:` of the DAG (differs from the file-derived id)
 }
 
 type FileC struct {
@@ -168,7 +169,11 @@ func (c Content) yaml() string {
 	case "nosched":
 		return stepsYAML
 	}
-	return "schedule: " + c.V.yaml() + "\n" + stepsYAML
+	nm := ""
+	if c.Nm != "" {
+		nm = "name: " + yq(c.Nm) + "\n"
+	}
+	return nm + "schedule: " + c.V.yaml() + "\n" + stepsYAML
 }
 
 func sv(s string) Val { return Val{S: &s} }
@@ -1017,6 +1022,14 @@ func runSeq(c *Case, rs *resume, flush func(i int, op *Op, fc *fakeClient)) {
 		case "write":
 			p := filepath.Join(dir, op.F)
 			if op.Style == "inplace" {
+				// writing in place truncates first and the watcher may load the empty file in between; that is
+				// harmless only if the final content loads.  An unloadable content is written atomically instead
+				// (whatever the source of the case: generator, corpus, replay file).
+				if v, _, _ := loadYAML(op.C.yaml()); v != 0 {
+					op.Style = "rename"
+				}
+			}
+			if op.Style == "inplace" {
 				if err := os.WriteFile(p, []byte(op.C.yaml()), 0o644); err != nil {
 					panic(err)
 				}
@@ -1180,7 +1193,17 @@ func civilExpr(r *vh.Rng, m0 int64, span int) string {
 	}
 }
 
+// genContent: a file content; a third of the schedule-bearing ones carry an explicit `name:` that differs from the
+// file-derived id (often the id of ANOTHER file of the directory): suspension and history go by file, not by name.
 func genContent(r *vh.Rng, m0 int64, span int, allowPanic bool) Content {
+	c := genContent0(r, m0, span, allowPanic)
+	if c.V != nil && r.Below(3) == 0 {
+		c.Nm = []string{"d0", "d1", "d2", "d3", "d4", "nightly job", "x"}[r.Below(7)]
+	}
+	return c
+}
+
+func genContent0(r *vh.Rng, m0 int64, span int, allowPanic bool) Content {
 	ex := func() Val { return sv(civilExpr(r, m0, span)) }
 	exs := func() Val {
 		if r.Below(2) == 0 {
@@ -1380,7 +1403,7 @@ func fixedSeqs() []Case {
 	}
 	f := func(name string, v Val) FileC { return FileC{Name: name, C: Content{V: &v}} }
 	var cs []Case
-	// F9a: no activation within the horizon -> invoked at every tick
+	// F9a (repaired in /repo, 24d4f27): no activation within the horizon; the entry used to be invoked at every tick
 	cs = append(cs, Case{Kind: "seq", Stream: "fixed-f9a", Files: []FileC{f("d0.yaml", sv("0 0 30 2 *"))}, Ops: ticks(3)})
 	cs = append(cs, Case{Kind: "seq", Stream: "fixed-f9a", Files: []FileC{f("d0.yaml", mv([]Val{sv("restart"), sv("0 0 30 2 *")}))}, Ops: ticks(3)})
 	{
@@ -1408,6 +1431,27 @@ func fixedSeqs() []Case {
 		*ct.V = mv([]Val{sv("starts"), lv(sv("* * * * *"))})
 		ops = append(ops, Op{Op: "write", F: "d1.yaml", C: &ct, Style: "inplace"}, Op{Op: "tick", M: m + 1, Wall: (m + 1) * 60})
 		cs = append(cs, Case{Kind: "seq", Stream: "fixed-f13a-watch", Files: []FileC{f("d0.yaml", sv("* * * * *"))}, Ops: ops})
+	}
+	// the "already started in this minute" guard at its edge: the previous run started at EXACTLY hh:mm:00 of the
+	// ticked minute and has ended; the daemon is restarted inside the minute and ticks it again -> no second start.
+	// Bunched variant: the tick of minute m runs late, exactly at (m+1):00; the tick of m+1 follows at once.
+	{
+		h1 := Hist{Kind: "done", At: m * 60}
+		ops := []Op{{Op: "restart"}, {Op: "tick", M: m, Wall: m * 60}, {Op: "hist", F: "d0.yaml", H: &h1}, {Op: "restart"},
+			{Op: "tick", M: m, Wall: m*60 + 30}, {Op: "tick", M: m + 1, Wall: (m + 1) * 60}}
+		cs = append(cs, Case{Kind: "seq", Stream: "fixed-same-minute", Files: []FileC{f("d0.yaml", sv("* * * * *"))}, Ops: ops})
+		h2 := Hist{Kind: "done", At: (m + 1) * 60}
+		ops2 := []Op{{Op: "restart"}, {Op: "tick", M: m, Wall: (m + 1) * 60}, {Op: "hist", F: "d0.yaml", H: &h2},
+			{Op: "tick", M: m + 1, Wall: (m + 1) * 60}, {Op: "tick", M: m + 2, Wall: (m + 2) * 60}}
+		cs = append(cs, Case{Kind: "seq", Stream: "fixed-same-minute-bunched", Files: []FileC{f("d0.yaml", sv("* * * * *"))}, Ops: ops2})
+	}
+	// suspension goes by the file-derived id, not by the DAG's `name:`: d0.yaml is named "d1", d1.yaml is named "d0"
+	{
+		v0, v1 := sv("* * * * *"), sv("* * * * *")
+		files := []FileC{{Name: "d0.yaml", C: Content{V: &v0, Nm: "d1"}}, {Name: "d1.yaml", C: Content{V: &v1, Nm: "d0"}}}
+		ops := []Op{{Op: "restart"}, {Op: "suspend", F: "d0.yaml", On: true}, {Op: "tick", M: m, Wall: m * 60},
+			{Op: "suspend", F: "d0.yaml", On: false}, {Op: "suspend", F: "d1.yaml", On: true}, {Op: "tick", M: m + 1, Wall: (m+1)*60 + 70}}
+		cs = append(cs, Case{Kind: "seq", Stream: "fixed-name-vs-id", Files: files, Ops: ops})
 	}
 	// good behaviour: a bad file next to a good one, an added file, an edited file, a removed file
 	{
